@@ -150,11 +150,15 @@ fn replay_cmpop(ctx: &Ctx, doc: &Value, t: &mut Tally) {
                           "dev": if dev { json!("bidi_nsm_strict") } else { Value::Null }}));
     }
     if ctx.forms {
-        let (v, _) = call_profile_full(p, "static", "compare", ArgKind::Str, &args);
-        t.executions += 1;
-        if v != actual {
-            t.mismatch(json!({"k": "c16form", "p": p, "op": "compare", "a": doc["a"], "b": doc["b"], "form": "static",
-                              "reference": actual, "actual": v}));
+        // static form with views of one buffer where one operand contains the other; instance form with separately
+        // allocated operands
+        for (form, kind, kn) in [("static", ArgKind::Str, "views"), ("inst", ArgKind::Owned, "separate"), ("long", ArgKind::CowBorrowed, "views")] {
+            let (v, _) = call_profile_full(p, form, "compare", kind, &args);
+            t.executions += 1;
+            if v != actual {
+                t.mismatch(json!({"k": "c16form", "p": p, "op": "compare", "a": doc["a"], "b": doc["b"], "form": form, "operands": kn,
+                                  "reference": actual, "actual": v}));
+            }
         }
     }
     if doc["res"].get("eq").is_some() && doc["a"] != doc["b"] {
